@@ -95,12 +95,17 @@ RefConstruct(a, s, reg) ==
         how  == FaultAt(ar.a.st.cfg, reg, inv)
         n0   == NextId(ar.a.st)
         nOut == NOuts(r)
-        outs == IF how # "ok" THEN <<>>
+        \* "cancel": the constructor succeeds and cancels the context of the Build in progress.  The reference
+        \* takes the verdict "Build completes" (no creation step follows in its order); the guards allow both.
+        good == how \in {"ok", "cancel"}
+        outs == IF ~good THEN <<>>
                 ELSE IF Len(r.as) >= 2 THEN [i \in 1..nOut |-> n0]      \* one instance serves every alias
                 ELSE [i \in 1..nOut |-> n0 + i - 1]
         e    == [ev |-> "ctor", reg |-> reg, inv |-> inv, scope |-> s, args |-> ar.args, outs |-> outs,
-                 outcome |-> how, ign |-> TRUE]
-    IN [a |-> Feed(ar.a, e), ok |-> how = "ok", outs |-> outs]
+                 outcome |-> IF good THEN "ok" ELSE how, ign |-> TRUE]
+        a1   == Feed(ar.a, e)
+        a2   == IF how = "cancel" /\ a1.st.cur.op = "build" THEN Feed(a1, [ev |-> "cancelbuild", reg |-> reg]) ELSE a1
+    IN [a |-> a2, ok |-> good, outs |-> outs]
 
 (***************************************************************************)
 (* Disposal.  A scope's own instances in reverse creation order, after all *)
